@@ -506,6 +506,19 @@ var c01ArgPool = []string{
 	"(list 1 (list 2 (list 3)))", "[nil nil]", "(hash 1 2)", `(hash "k" [1 2])`, "int64", "string", "(quote int64)",
 }
 
+// every special form applied to nothing, and bodies that yield no value, as arguments: a form that leaves no value
+// where its caller expects one
+func init() {
+	for _, f := range c01SpecialForms {
+		c01ArgPool = append(c01ArgPool, "("+f+")")
+	}
+	c01ArgPool = append(c01ArgPool, "(newScope (begin) 5)", "(cond true (begin) 3)", "(let [a 1] (begin))", "(tfv)", "((fn []))", "(begin (begin))",
+		"(for [(def i 0) (< i 1) (def i (+ i 1))])", "(cond false 1)", "(let [] (newScope))")
+}
+
+var c01Cyclic = []string{"(let [cy (hash)] (hset cy self: cy) cy)", "(let [ca [1 2]] (aset ca 0 ca) ca)", "(let [cb [1] ch (hash)] (hset ch arr: cb) (aset cb 0 ch) cb)",
+	"(let [cc [1 [2]]] (aset (aget cc 1) 0 cc) cc)", "(let [cd (hash a: [1])] (aset (hget cd a:) 0 cd) cd)"}
+
 var c01SpecialForms = []string{"and", "or", "cond", "quote", "def", "mdef", "fn", "defn", "begin", "let", "letseq", "assert", "defmac", "macexpand", "syntaxQuote", "for", "set", "break", "continue", "newScope", "package", "return", "_ls",
 	"struct", "func", "method", "interface", "var", "expectError", "infix", "infixExpand", ":", "comma", "range", "defmap", "++", "+=", "--", "-=", "import", "field", "if", "else", "->", "=", ":="}
 
@@ -553,10 +566,18 @@ func genC01Calls(r *kernel.RNG, tier string, i int) interface{} {
 	sc.Texts = append(sc.Texts,
 		"(func tf1 [a:int64] [n:int64] (return a)) (func tf2 [a:string b:int64] [n:int64 e:error] (return b nil)) (func tf3 [#a:int64 b:float64] [n:int64] (return 1))",
 		"(struct Ts [(field A: int64 e:0) (field B: string e:1)]) (def ts (Ts A: 1)) (defmap tm) (def pq (package \"pq\" { V := 1; (defn G [x] x) }))",
-		"(defn lzf [#a b] b) (defn vf [a & rest] rest) (defmac mq [x & r] ^(list ~x ~@r))")
-	declared := []string{"tf1", "tf2", "tf3", "Ts", "ts", "tm", "pq.G", "pq.V", "lzf", "vf", "mq", "ts.A", "pq"}
+		"(defn lzf [#a b] b) (defn vf [a & rest] rest) (defmac mq [x & r] ^(list ~x ~@r)) (func tfv [] [] (return))")
+	// identifiers are not ASCII only: declared names, fields and parameters with multi-byte runes
+	sc.Texts = append(sc.Texts,
+		"(struct Größe [(field größe: int64 e:0) (field 長さ: string e:1) (field x: float64 e:2)]) (def gö (Größe größe: 1 長さ: \"é\")) (func tfü [größe:int64 長さ:string] [länge:int64] (return größe))",
+		"(def tmi (tm a: 1)) (def plainh (hash a: 1))")
+	declared := []string{"tf1", "tf2", "tf3", "Ts", "ts", "tm", "pq.G", "pq.V", "lzf", "vf", "mq", "ts.A", "pq", "Größe", "gö", "tfü", "gö.長さ", "tmi", "_ls"}
+	fieldTargets := []string{"ts.A", "ts.B", "gö.größe", "gö.長さ", "gö.x", "tmi.a", "plainh.a", "pq.V", "ts.Nosuch"}
 	k := 24
 	lo := (i * 4) % len(names)
+	// every sixth scenario: values that contain themselves only, handed over as values and as literals of a call
+	// built as data (every walker of a value - compiler, printer, comparer, encoder - meets them)
+	cyclicOnly := i%6 == 5
 	for j := 0; j < k; j++ {
 		n := names[(lo+j/6)%len(names)]
 		if r.Chance(0.3) {
@@ -570,6 +591,14 @@ func genC01Calls(r *kernel.RNG, tier string, i int) interface{} {
 		for a := 0; a < na; a++ {
 			args = append(args, r.Pick(c01ArgPool))
 		}
+		if cyclicOnly {
+			if na == 0 {
+				args = append(args, "")
+			}
+			for a := range args {
+				args[a] = r.Pick(c01Cyclic)
+			}
+		}
 		t := "(" + n + " " + strings.Join(args, " ") + ")"
 		if strings.HasPrefix(n, "tf") && len(args) > 0 && r.Chance(0.4) {
 			// by-name call with right and wrong labels
@@ -580,7 +609,11 @@ func genC01Calls(r *kernel.RNG, tier string, i int) interface{} {
 			}
 			t = "(" + n + " " + strings.Join(parts, " ") + ")"
 		}
-		switch r.Intn(8) {
+		route := r.Intn(8)
+		if cyclicOnly && r.Chance(0.5) {
+			route = 4
+		}
+		switch route {
 		case 0:
 			t = "{ " + n + " " + strings.Join(args, " ") + " }"
 		case 1:
@@ -589,6 +622,28 @@ func genC01Calls(r *kernel.RNG, tier string, i int) interface{} {
 			t = "(str " + t + ")"
 		case 3:
 			t = "[" + t + " " + t + "]"
+		case 4:
+			// the call built as data and evaluated: argument values (cyclic ones too) reach the compiler as literals
+			t = "(eval (list (quote " + n + ") " + strings.Join(args, " ") + "))"
+		case 5:
+			t = "(+ 1 " + t + ")"
+		}
+		if len(args) > 0 && r.Chance(0.12) {
+			// a field of a record as the target of every kind of assignment, with every kind of value
+			ft := r.Pick(fieldTargets)
+			dot := strings.Index(ft, ".")
+			switch r.Intn(5) {
+			case 0:
+				t = "(set " + ft + " " + args[0] + ")"
+			case 1:
+				t = "{" + ft + " = " + args[0] + "}"
+			case 2:
+				t = "(hset " + ft[:dot] + " " + ft[dot+1:] + ": " + args[0] + ")"
+			case 3:
+				t = "{" + ft[:dot] + "[%" + ft[dot+1:] + "] = " + args[0] + "}"
+			case 4:
+				t = "(def cl9 (let [w " + ft[:dot] + "] (fn [] w))) (set " + ft + " " + args[0] + ") (cl9)"
+			}
 		}
 		sc.Texts = append(sc.Texts, t)
 	}
